@@ -239,7 +239,13 @@ Inductive event :=
 | Tick (t : Z)
 | Hup
 | Term
-| Stopped.                                 (* consumer.StopChan closed *)
+| Stopped                                  (* consumer.StopChan closed *)
+| External (k : key) (b : bytes).          (* another process exclusively creates, writes and
+                                              fsyncs a file that does not exist yet *)
+
+Definition external (s : st) (k : key) (b : bytes) : st :=
+  if exists_ (fs s) k then emit s (OCreate k true false false false)
+  else emit (emit (emit s (OCreate k true false false true)) (OWrite k (None, b))) (OFsync k).
 
 Definition tail_ (c : cfg) (s : st) (sync closef exit_ : bool) : st :=
   let s1 := if sync then do_sync c s else s in
@@ -249,8 +255,10 @@ Definition tail_ (c : cfg) (s : st) (sync closef exit_ : bool) : st :=
   else s1.
 
 Definition step (c : cfg) (s : st) (e : event) : st :=
+  match e with External k b => external s k b | _ =>
   if negb (running s) then s else
   match e with
+  | External _ _ => s
   | Stopped => tail_ c s true true true
   | Term => tail_ c s true false false
   | Hup => tail_ c s true true false
@@ -271,7 +279,7 @@ Definition step (c : cfg) (s : st) (e : event) : st :=
         let s3 := set_pending s2 (pending s2 ++ [m]) in
         let full := Nat.eqb (length (pending s3)) (max_in_flight c) in
         tail_ c s3 (rot || full || starved) false false
-  end.
+  end end.
 
 Definition run (c : cfg) (fs0 : fsT) (es : list event) : st := fold_left (step c) es (init fs0).
 
